@@ -736,17 +736,19 @@ func (s *clientSocket) registerAckHandler(f any, timeout time.Duration) (id uint
 		delete(s.acks, id)
 		s.acksMu.Unlock()
 
-		remove := func(slice []sendBufferItem, s int) []sendBufferItem {
-			return append(slice[:s], slice[s+1:]...)
-		}
-
+		// Removing while ranging over the same slice skips elements and slices out of range
+		// (a packet with binary attachments is several frames with the same ack ID):
+		// keep the frames which are not to be removed, in place.
 		s.sendBufferMu.Lock()
-		for i, packet := range s.sendBuffer {
+		kept := s.sendBuffer[:0]
+		for _, packet := range s.sendBuffer {
 			if packet.ackID != nil && *packet.ackID == id {
 				s.debug.Log("Removing packet with ack ID", id)
-				s.sendBuffer = remove(s.sendBuffer, i)
+				continue
 			}
+			kept = append(kept, packet)
 		}
+		s.sendBuffer = kept
 		s.sendBufferMu.Unlock()
 	})
 	if err != nil {
